@@ -17,7 +17,7 @@ TEXT = {
 META = "Metamorphic/differential bounded check on the real compiler: both programs of every pair are compiled by d2compiler.Compile inside the symbolic interpreter, a canonical projection of the two board trees (IDs, labels, shapes, attributes, styles, connections with endpoints/arrows/index, nested boards, element order) is built as a string with symbolic bytes, and z3 decides equality for every value of the symbolic names/values/choices within the bound. "
 TEXT.update({
  "C18": ("The real layout orchestration (LayoutNested with subgraph extraction, injection, order restoration and re-attachment of cross-diagram connections, plus the real grid, sequence and near layouts) is executed by the symbolic interpreter over a family of nested diagrams whose shape (kinds of the outer, inner and third-level containers, near groups, which connections cross which boundary) is a vector of symbolic choices; the JavaScript core engine is replaced by a positional stand-in. On every member of the family the structure snapshot before and after must be equal and every pointer must lead to an object of the board. The solver here only decides the choice vector; the strength is that every combination in the family is covered, not a sample.", "4 C18"),
- "C22": ("d2grid.layoutGrid executed on grids with both rows and columns given, with symbolic cell sizes (exact dyadic lowering of float64): order, disjointness, exact gaps, containment and row/column alignment are proved by the solver for every size in range. Grids with only rows or only columns (dynamic layout) are outside.", "4 C22"),
+ "C22": ("d2grid.layoutGrid executed on grids with both rows and columns given, with symbolic cell sizes (exact dyadic lowering of float64): order, disjointness, exact gaps, containment and row/column alignment are proved by the solver for every size in range. Grids with only rows or only columns (dynamic layout) are executed with the size along a line drawn from a menu (it decides the cuts, found through standard deviations the solver cannot reach) and the size across it symbolic: lines in declaration order, exact alignment and gaps, containment and disjointness for every such size.", "4 C22"),
  "C44": ("The watcher's real concurrency code (requestCompile, compileLoop, broadcast, handleWatch, writeLoop with their channels, mutexes and wait groups) is executed under the engine's cooperative scheduler with the compiler and the websocket library replaced by recording stand-ins; every schedule within the bound is explored and the latest-result and monotonic-delivery assertions are checked at quiescence.", "4 C44/C45"),
  "C45": ("Same scheduler harness for shutdown: close() racing with connected clients, a pending compile and a late connection attempt, on every schedule within the bound: close returns only when all handlers have ended, nothing is admitted afterwards, no deadlock or panic.", "4 C44/C45"),
  "C46": ("The real bundle/runWorkers code (goroutines, semaphore, channels, WaitGroup, mutex, select loop) is executed under the engine's cooperative scheduler, in which every choice of the next goroutine at a blocking operation and a bounded number of preemptions are symbolic choices; together with a symbolic load/fail bit per image every schedule within the bound is explored and the output must equal an order-independent reference.", "4 C46"),
@@ -31,21 +31,21 @@ TEXT.update({
  "C34": ("The real d2cli.render and resolveLinks are executed on board trees with symbolic board names (all short strings over a . / - plus reserved-looking words); drawing/writing of one board and os.RemoveAll are replaced by recording stand-ins, and every recorded path must be a distinct file strictly inside the directory derived from the output path. Found the path traversal through board names (repaired) and the index.svg clash (recorded).", "4 C34"),
  "C48": ("The real d2cli.Write / xmain.AtomicWritePath / fmtCmd code is executed over a file-system model that replaces the os calls (engine-side function substitution), with the kill point a symbolic choice over all system-call steps and the mid-write states; on every path the target file must hold its complete old or complete new content. The check found that `d2 fmt` truncated files in place (repaired).", "4 C48"),
  "C42": ("d2lsp.GetCompletionItems executed symbolically on all short texts over a syntax alphabet and on keyword templates with a symbolic cursor line/column (a panic on any path is a counterexample), and GetBoardAtPosition on a multi-board file with a symbolic cursor against a reference walk. Reference ranges (GetRefRanges) are not covered.", "4 C42"),
- "C03": ("Parse -> Format -> Parse -> Format of the real parser and printer executed symbolically on every input up to the bound over a 16-character alphabet of D2 syntax: the formatted text must parse and be a fixpoint; found (and led to the repair of) keys ending in a dash.", "4 C03"),
+ "C03": ("Parse -> Format -> Parse -> Format of the real parser and printer executed symbolically on every input up to the bound over a 16-character alphabet of D2 syntax: the formatted text must parse and be a fixpoint; found (and led to the repair of) keys ending in a dash. A second harness fills 18 templates of constructs longer than the bound (board keywords, substitutions inside quoted text, arrays, block strings, comments, connection fields, imports) with symbolic holes; it found four more formatter defects (repaired) and the array range defect (recorded).", "4 C03"),
  "C16": ("Style.Apply and d2compiler's reserved-key validation executed symbolically against reference domains written in the harness from the documentation: integer ranges on all short ASCII strings, opacity over a numeric alphabet incl. NaN/Inf spellings, the 150 CSS colour names in several spellings (and perturbed), # colours through the real regular expression, keyword and boolean attributes, sizes/positions/gaps/grid counts through the real compiler with the error position.", "4 C16"),
  "C27": ("For 17 (thorough: 21) of the 23 shape types GetDimensionsToFit -> NewShape -> GetInnerBox is executed on symbolic content and padding sizes (multiples of 0.5, exact dyadic fixed-point lowering of float64; one or two genuinely floating-point operations per shape stay QF_FP terms) and the solver proves the inner box holds content plus padding and lies inside the shape, within one pixel.", "4 C27"),
  "C29": ("Diagram.BoundingBox executed on shapes and a connection with symbolic integer geometry, decoration flags and label position; every drawn extent computed independently in the harness must lie inside the reported box (1 px slack) for all values in range.", "4 C29"),
  "C02": ("Every node and error range of Parse(s) is checked against positions recomputed from the input by an independent reference (UTF-8 bytes, or UTF-16 code units in UTF-16 mode), nesting is asserted parent-by-child, and the text under every key segment is re-parsed; inputs: all ASCII strings up to the bound, all strings over a punctuation alphabet one character longer, and five input shapes with two fully symbolic code points each (all 1.1 million code points, decided by the solver).", "4 C02"),
- "C04": (META + "Here the second program is d2format.Format of the first. Exhaustive over all programs up to the length bound over a 16-character alphabet and over ten templates with symbolic holes.", "4 C04"),
+ "C04": (META + "Here the second program is d2format.Format of the first. Exhaustive over all programs up to the length bound over a 16-character alphabet and over nineteen templates with symbolic holes (among them labels spelled like reserved words in every letter case, which exposed that the formatter lower-cased them).", "4 C04"),
  "C08": ("d2compiler.Compile is executed twice per path with the iteration order of every Go map it ranges over turned into a symbolic choice; the two projections (or error texts) must be equal on every path. Decides dependence on map order, the only source of nondeterminism inside one goroutine; real schedules are outside the engine.", "4 C08"),
  "C10": (META + "17 pairs state the override/null rules (last assignment wins across case variants of the name, null on object/child/attribute/connection/endpoint, re-creation after null).", "4 C10"),
- "C11": ("Connection programs drawn by symbolic choice are compiled by the real compiler; indices, IDs and order are asserted directly on the graph, and an indexed reference with symbolic index must change exactly one connection or be an error.", "4 C11"),
+ "C11": ("Connection programs drawn by symbolic choice are compiled by the real compiler; indices, IDs and order are asserted directly on the graph, and an indexed reference with symbolic index must change exactly one connection or be an error; base connections and the reference each range over both orientations and all four arrow forms.", "4 C11"),
  "C12": ("Differential bounded check of the matcher kernel d2ir.matchPattern against a reference matcher (all ASCII names/literals up to the bound, all two-byte UTF-8 characters), plus " + META + "Here the second program has the glob expanded by the reference matcher before/after the declarations it must reach, for later targets, explicit-vs-glob ordering in both directions, * vs **, connection globs and reserved keywords.", "4 C12"),
  "C13": (META + "The second program has the variable's value written in place of the substitution (six kinds of use site, inner scope shadowing outer); single-quoted text and undefined names are asserted directly.", "4 C13"),
  "C14": (META + "The second program is the importing file with the imported content inlined (element order not compared). Cycle detection: three files with symbolic import targets; a reference walk with path.Join semantics says whether the chain from index.d2 returns to a file being imported, and the compiler must then report a cyclic import (and must terminate in every case).", "4 C14"),
  "C15": (META + "A base with one symbolic statement and two sibling boards (scenarios, steps or layers); each board's content must equal the compilation of the inherited text plus its own statements, and the base must equal the base compiled alone.", "4 C15"),
- "C35": ("The real compiler runs on a five-board template with a link value assembled from symbolic tokens and declared at a symbolic site; an independent reference resolves the link against the known board tree: existing other board => stored absolute path, missing or own board => dropped.", "4 C35"),
- "C36": ("One (thorough: two) symbolic d2oracle edit on six base diagrams, all inside the symbolic interpreter (parser, formatter, compiler, oracle): the text of the returned graph must compile to the same projection and be a formatter fixpoint on every path.", "4 C36-C41"),
+ "C35": ("The real compiler runs on a five-board template with a link value assembled from symbolic tokens and declared at a symbolic site; an independent reference resolves the link against the known board tree: existing other board => stored absolute path, missing or own board => dropped. For the rewriting clause the real d2cli.render and resolveLinks run on eight board trees with symbolic names and must agree on the file of every board.", "4 C35"),
+ "C36": ("One (thorough: two) symbolic d2oracle edit on six base diagrams, all inside the symbolic interpreter (parser, formatter, compiler, oracle): the text of the returned graph must compile to the same projection and be a formatter fixpoint on every path. UpdateImport is run on programs assembled from a menu of import forms and compared with a reference count of imports, then compiled against the moved files.", "4 C36-C41"),
  "C37": ("d2oracle.Create/Set with symbolic key and value on the base diagrams: reference effects (exactly the named element changes, only missing containers appear, label equals the value byte for byte) asserted on the returned graph, elements followed by unique labels.", "4 C36-C41"),
  "C38": ("d2oracle.Delete with symbolic key on the base diagrams and on a family of name-collision containers: removal of exactly the target and its attached connections, hoisting of children, renumbering of parallel connections, everything else unchanged.", "4 C36-C41"),
  "C39": ("d2oracle.Rename/Move with symbolic key, destination and includeDescendants: nothing lost, only the moved object and its followers change ID, unmoved children go to the former parent, only destination containers are created.", "4 C36-C41"),
